@@ -34,3 +34,7 @@ def run(tier, seed):
                         "order of equal-deadline timers and of fds reported in one dispatch is unspecified (tie groups)"],
     }
     return ec.standard_run("C02", tier, seed, plan)
+
+
+def replay(case, seed):
+    return ec.replay_case("C02", case, seed)
